@@ -10,6 +10,10 @@
   with `rfl`.  No arithmetic fact about `Scalar` is used, so any edit of a formula in the Rust text -- even a
   harmless `a * b` ↦ `b * a` -- breaks the theorem of that function.
 
+  Error positions: every theorem starts on its own line with the keyword `theorem` (comments before a theorem
+  are plain comments, not doc comments), so `<file>:<line>` of a build error lies between that line and the next
+  `theorem` line.
+
   Hand-written once; never regenerated.
 -/
 import SLV.Gen.Mul
@@ -20,7 +24,7 @@ variable {α : Type} [Scalar α] {n m : Nat}
 theorem ofFn_getElem' {β : Type} (v : Vector β n) : (Vector.ofFn fun i : Fin n => v[i]) = v := by
   apply Vector.ext; intro i h; simp
 
-/-- index form of `map` (oriented towards the shape the translator produces) -/
+/- index form of `map` (oriented towards the shape the translator produces) -/
 theorem map_eq_ofFn {β γ : Type} (v : Vector β n) (f : β → γ) :
     v.map f = Vector.ofFn fun i : Fin n => f v[i] := by
   apply Vector.ext; intro i h; simp
@@ -39,6 +43,25 @@ theorem foldl_eq_finRange {β γ : Type} (v : Vector β n) (f : γ → β → γ
 theorem all_eq_finRange {β : Type} (v : Vector β n) (p : β → Bool) :
     v.toList.all p = (List.finRange n).all fun i => p v[i] := by
   rw [toList_eq_finRange_map v, List.all_map]; rfl
+
+/- the accumulate-and-check loop of `check_simplex` / `check_base_rate` as a fold in the `Except` monad -/
+theorem checkEntries_map_eq_foldlM {β : Type} (l : Label) (g : β → α) (xs : List β) (z : α) :
+    checkEntries l (xs.map g) z = xs.foldlM (m := Except Label)
+      (fun (acc : α) (i : β) => Except.bind (checkUnit (g i) l) fun _ => Except.ok (acc + g i)) z := by
+  induction xs generalizing z with
+  | nil => rfl
+  | cons x xs ih =>
+    rw [List.map_cons, List.foldlM_cons]
+    unfold checkEntries checkUnit
+    cases Scalar.inUnit (g x)
+    · rfl
+    · exact ih _
+
+theorem checkEntries_eq_foldlM (l : Label) (v : Vector α n) (z : α) :
+    checkEntries l v.toList z = (List.finRange n).foldlM (m := Except Label)
+      (fun (acc : α) (i : Fin n) => Except.bind (checkUnit v[i] l) fun _ => Except.ok (acc + v[i])) z := by
+  rw [toList_eq_finRange_map v]
+  exact checkEntries_map_eq_foldlM l (fun i => v[i]) (List.finRange n) z
 
 theorem gen_Simplex_vacuous_eq : @SLV.Gen.Mul.Simplex_vacuous = @SLV.Simplex.vacuous := rfl
 theorem gen_Simplex_is_vacuous_eq : @SLV.Gen.Mul.Simplex_is_vacuous = @SLV.Simplex.isVacuous := rfl
@@ -83,6 +106,59 @@ theorem gen_uncertainty_maximized_eq : @SLV.Gen.Mul.uncertainty_maximized = @SLV
 
 theorem gen_Simplex_discount_eq : @SLV.Gen.Mul.Simplex_discount = @SLV.Simplex.discount := rfl
 
+/- multinomial `check_simplex` (src/mul.rs) -/
+theorem gen_multi_check_simplex_eq : @SLV.Gen.Mul.multi_check_simplex = @SLV.checkSimplex := by
+  funext α _ n b u
+  unfold SLV.Gen.Mul.multi_check_simplex SLV.checkSimplex
+  simp only [checkEntries_eq_foldlM]
+  generalize List.foldlM (m := Except Label) _ _ _ = r
+  cases r <;> try rfl
+  cases checkUnit u Label.u <;> try rfl
+  dsimp only
+  generalize checkOne (α := α) _ Label.sumBU = c
+  cases c <;> rfl
+
+theorem gen_multi_check_base_rate_eq : @SLV.Gen.Mul.multi_check_base_rate = @SLV.checkBaseRate := by
+  funext α _ n a
+  unfold SLV.Gen.Mul.multi_check_base_rate SLV.checkBaseRate
+  simp only [checkEntries_eq_foldlM]
+  generalize List.foldlM (m := Except Label) _ _ _ = r
+  cases r <;> try rfl
+  dsimp only
+  generalize checkOne (α := α) _ Label.sumA = c
+  cases c <;> rfl
+
+theorem gen_Simplex_try_new_eq : @SLV.Gen.Mul.Simplex_try_new = @SLV.Simplex.tryNew := by
+  funext α _ n b u
+  unfold SLV.Gen.Mul.Simplex_try_new
+  rw [gen_multi_check_simplex_eq]
+  rfl
+
+theorem gen_Simplex_new_eq : @SLV.Gen.Mul.Simplex_new = @SLV.Simplex.tryNew := by
+  funext α _ n b u
+  unfold SLV.Gen.Mul.Simplex_new
+  rw [gen_Simplex_try_new_eq]
+
+theorem gen_Opinion_try_new_eq : @SLV.Gen.Mul.Opinion_try_new = @SLV.Opinion.tryNew := by
+  funext α _ n b u a
+  unfold SLV.Gen.Mul.Opinion_try_new
+  rw [gen_multi_check_simplex_eq, gen_multi_check_base_rate_eq]
+  rfl
+
+theorem gen_Opinion_new_eq : @SLV.Gen.Mul.Opinion_new = @SLV.Opinion.tryNew := by
+  funext α _ n b u a
+  unfold SLV.Gen.Mul.Opinion_new
+  rw [gen_Opinion_try_new_eq]
+
+/- `Opinion::normalized` (used by the labelled products): only the base rate is renormalised -/
+theorem gen_Opinion_normalized_eq :
+    @SLV.Gen.Mul.Opinion_normalized = fun (α : Type) (_ : Scalar α) (n : Nat) (b : Tab α n) (u : α) (a : Tab α n) =>
+      (⟨b, u, normalizeProbDist a⟩ : Opinion α n) := by
+  funext α _ n b u a
+  unfold SLV.Gen.Mul.Opinion_normalized
+  rw [gen_normalize_prob_dist_eq]
+  rfl
+
 theorem gen_compute_simlex_eq : @SLV.Gen.Mul.compute_simlex = @SLV.computeSimplex := by
   funext α _ n op l r
   unfold SLV.Gen.Mul.compute_simlex
@@ -96,12 +172,70 @@ theorem gen_compute_base_rate_eq : @SLV.Gen.Mul.compute_base_rate = @SLV.compute
   simp only [gen_OpinionRef_is_vacuous_eq, gen_OpinionRef_is_dogmatic_eq]
   cases op <;> rfl
 
-/-- `Fuse<OpinionRef, OpinionRef>::fuse`; `same` is handed to `compute_base_rate` -/
+/- `Fuse<OpinionRef, OpinionRef>::fuse`; `same` is handed to `compute_base_rate` -/
 theorem gen_fuse_eq : @SLV.Gen.Mul.fuse = @SLV.fuse := by
   funext α _ n op same l r
   unfold SLV.Gen.Mul.fuse SLV.fuse
   rw [gen_compute_simlex_eq, gen_compute_base_rate_eq, gen_uncertainty_maximized_eq]
   cases op <;> rfl
+
+theorem gen_OpinionRef_discount_eq : @SLV.Gen.Mul.OpinionRef_discount = @SLV.Opinion.discount := by
+  funext α _ n w t
+  unfold SLV.Gen.Mul.OpinionRef_discount
+  rw [gen_Simplex_discount_eq]
+  rfl
+
+theorem gen_Opinion_discount_eq : @SLV.Gen.Mul.Opinion_discount = @SLV.Opinion.discount := by
+  funext α _ n w t
+  unfold SLV.Gen.Mul.Opinion_discount
+  rw [gen_OpinionRef_discount_eq]
+
+/- `Fuse<OpinionRef, &Simplex>`: the right operand borrows the left operand's base-rate object (`same = true`) -/
+theorem gen_fuse_ref_simplex_eq : @SLV.Gen.Mul.fuse_ref_simplex = @SLV.fuseSimplex := by
+  funext α _ n op l r
+  unfold SLV.Gen.Mul.fuse_ref_simplex
+  rw [gen_fuse_eq]
+  rfl
+
+theorem gen_fuse_opinion_simplex_eq : @SLV.Gen.Mul.fuse_opinion_simplex = @SLV.fuseSimplex := by
+  funext α _ n op l r
+  unfold SLV.Gen.Mul.fuse_opinion_simplex
+  rw [gen_fuse_ref_simplex_eq]
+
+theorem gen_fuse_opinion_opinion_eq : @SLV.Gen.Mul.fuse_opinion_opinion = @SLV.fuse := by
+  funext α _ n op same l r
+  unfold SLV.Gen.Mul.fuse_opinion_opinion
+  rw [gen_fuse_eq]
+
+/- `Fuse<&Simplex, &Simplex>`: the `panic!` for ECm is the value `none` -/
+theorem gen_fuse_simplex_simplex_eq : @SLV.Gen.Mul.fuse_simplex_simplex = @SLV.fuseSS := by
+  funext α _ n op l r
+  unfold SLV.Gen.Mul.fuse_simplex_simplex
+  rw [gen_compute_simlex_eq]
+  cases op <;> rfl
+
+/- `fuse_assign` is `*lhs = fuse(lhs, rhs)`: the new value of `lhs` is returned -/
+theorem gen_fuse_assign_opinion_ref_eq : @SLV.Gen.Mul.fuse_assign_opinion_ref = @SLV.fuseAssign := by
+  funext α _ n op same l r
+  unfold SLV.Gen.Mul.fuse_assign_opinion_ref
+  rw [gen_fuse_eq]
+  rfl
+
+theorem gen_fuse_assign_opinion_opinion_eq : @SLV.Gen.Mul.fuse_assign_opinion_opinion = @SLV.fuseAssign := by
+  funext α _ n op same l r
+  unfold SLV.Gen.Mul.fuse_assign_opinion_opinion
+  rw [gen_fuse_assign_opinion_ref_eq]
+
+theorem gen_fuse_assign_opinion_simplex_eq : @SLV.Gen.Mul.fuse_assign_opinion_simplex = @SLV.fuseSimplex := by
+  funext α _ n op l r
+  unfold SLV.Gen.Mul.fuse_assign_opinion_simplex
+  rw [gen_fuse_ref_simplex_eq]
+
+theorem gen_fuse_assign_simplex_simplex_eq : @SLV.Gen.Mul.fuse_assign_simplex_simplex = @SLV.fuseSS := by
+  funext α _ n op l r
+  unfold SLV.Gen.Mul.fuse_assign_simplex_simplex
+  rw [gen_fuse_simplex_simplex_eq]
+  cases SLV.fuseSS op l r <;> rfl
 
 theorem gen_projections_eq : @SLV.Gen.Mul.projections = @SLV.projections := by
   funext α _ n m conds ay
@@ -125,5 +259,161 @@ theorem gen_inverse_eq : @SLV.Gen.Mul.inverse = @SLV.inverse := by
   unfold SLV.Gen.Mul.inverse SLV.inverse
   simp only [gen_Simplex_projection_eq, gen_max_uncertainty_eq, gen_Simplex_normalized_eq,
     map_eq_ofFn, replicate_eq_ofFn, ofFn_getElem']
+
+/-! ### Deduction / Abduction wrappers -/
+
+theorem gen_OpinionRef_deduce_eq : @SLV.Gen.Mul.OpinionRef_deduce = @SLV.deduce := by
+  funext α _ n m wx conds
+  unfold SLV.Gen.Mul.OpinionRef_deduce
+  rw [gen_mbr_eq, gen_deduce_of_eq]
+  rfl
+
+/- `deduce_with(conds, f)`: the model also reports whether the fallback closure was called -/
+theorem gen_OpinionRef_deduce_with_eq :
+    @SLV.Gen.Mul.OpinionRef_deduce_with = fun (α : Type) (_ : Scalar α) (n m : Nat) (wx : Opinion α n) (conds : CondTab α n m)
+      (f : Unit → Tab α m) => (SLV.deduceWith wx conds f).1 := by
+  funext α _ n m wx conds f
+  unfold SLV.Gen.Mul.OpinionRef_deduce_with SLV.deduceWith
+  rw [gen_mbr_eq, gen_deduce_of_eq]
+  cases SLV.mbr wx.a conds <;> rfl
+
+/- the flag of the model's `deduceWith` is `true` exactly when `mbr` gives `none` (i.e. when `f` is called) -/
+theorem deduceWith_flag (wx : Opinion α n) (conds : CondTab α n m) (f : Unit → Tab α m) :
+    (SLV.deduceWith wx conds f).2 = (SLV.mbr wx.a conds).isNone := by
+  unfold SLV.deduceWith
+  cases SLV.mbr wx.a conds <;> rfl
+
+theorem gen_Opinion_deduce_eq : @SLV.Gen.Mul.Opinion_deduce = @SLV.deduce := by
+  funext α _ n m wx conds
+  unfold SLV.Gen.Mul.Opinion_deduce
+  rw [gen_OpinionRef_deduce_eq]
+
+theorem gen_Opinion_deduce_with_eq :
+    @SLV.Gen.Mul.Opinion_deduce_with = fun (α : Type) (_ : Scalar α) (n m : Nat) (wx : Opinion α n)
+      (conds : CondTab α n m) (f : Unit → Tab α m) => (SLV.deduceWith wx conds f).1 := by
+  funext α _ n m wx conds f
+  unfold SLV.Gen.Mul.Opinion_deduce_with
+  rw [gen_OpinionRef_deduce_with_eq]
+
+theorem gen_abduce_with_eq : @SLV.Gen.Mul.abduce_with = @SLV.abduceWith := by
+  funext α _ n m wy conds ax ay
+  unfold SLV.Gen.Mul.abduce_with
+  rw [gen_inverse_eq, gen_deduce_of_eq]
+  rfl
+
+theorem gen_abduce_eq : @SLV.Gen.Mul.abduce = @SLV.abduce := by
+  funext α _ n m wy conds ax
+  unfold SLV.Gen.Mul.abduce
+  rw [gen_mbr_eq, gen_abduce_with_eq]
+  rfl
+
+/- `Abduction for OpinionRef / &Opinion`: only the simplex of `self` is used -/
+theorem gen_OpinionRef_abduce_with_eq :
+    @SLV.Gen.Mul.OpinionRef_abduce_with = fun (α : Type) (_ : Scalar α) (n m : Nat) (w : Opinion α m)
+      (conds : CondTab α n m) (ax : Tab α n) (ay : Tab α m) => SLV.abduceWith w.simplex conds ax ay := by
+  funext α _ n m w conds ax ay
+  unfold SLV.Gen.Mul.OpinionRef_abduce_with
+  rw [gen_abduce_with_eq]
+
+theorem gen_OpinionRef_abduce_eq :
+    @SLV.Gen.Mul.OpinionRef_abduce = fun (α : Type) (_ : Scalar α) (n m : Nat) (w : Opinion α m)
+      (conds : CondTab α n m) (ax : Tab α n) => SLV.abduce w.simplex conds ax := by
+  funext α _ n m w conds ax
+  unfold SLV.Gen.Mul.OpinionRef_abduce
+  rw [gen_abduce_eq]
+
+theorem gen_Opinion_abduce_with_eq :
+    @SLV.Gen.Mul.Opinion_abduce_with = fun (α : Type) (_ : Scalar α) (n m : Nat) (w : Opinion α m)
+      (conds : CondTab α n m) (ax : Tab α n) (ay : Tab α m) => SLV.abduceWith w.simplex conds ax ay := by
+  funext α _ n m w conds ax ay
+  unfold SLV.Gen.Mul.Opinion_abduce_with
+  rw [gen_OpinionRef_abduce_with_eq]
+
+theorem gen_Opinion_abduce_eq :
+    @SLV.Gen.Mul.Opinion_abduce = fun (α : Type) (_ : Scalar α) (n m : Nat) (w : Opinion α m)
+      (conds : CondTab α n m) (ax : Tab α n) => SLV.abduce w.simplex conds ax := by
+  funext α _ n m w conds ax
+  unfold SLV.Gen.Mul.Opinion_abduce
+  rw [gen_OpinionRef_abduce_eq]
+
+/-! ### src/mul/non_labeled.rs -/
+
+/- unlabelled `Product2` (`Opinion<MArr2<V, D0, D1>, V>`): the joint domain is flattened row-major, the
+    multi-index `d` of the Rust text is the flat index and `d[0]`, `d[1]` are `(idx2 d).1`, `(idx2 d).2`;
+    `MArr2::product2` is `outer2`; `Opinion::new` validates (panic ≙ error). -/
+theorem gen_product2_eq : @SLV.Gen.Mul.product2 = @SLV.product2U := by
+  funext α _ n0 n1 w0 w1
+  unfold SLV.Gen.Mul.product2 SLV.product2U SLV.product2Raw
+  rw [gen_OpinionRef_projection_eq, gen_Opinion_new_eq]
+  simp only [outer2, Vector.getElem_ofFn, Fin.getElem_fin, Fin.eta]
+
+theorem gen_product3_eq : @SLV.Gen.Mul.product3 = @SLV.product3U := by
+  funext α _ n0 n1 n2 w0 w1 w2
+  unfold SLV.Gen.Mul.product3 SLV.product3U SLV.product3Raw
+  rw [gen_OpinionRef_projection_eq, gen_Opinion_new_eq]
+  simp only [outer3, Vector.getElem_ofFn, Fin.getElem_fin, Fin.eta]
+
+theorem gen_Simplex1d_into_opinion_eq : @SLV.Gen.Mul.Simplex1d_into_opinion = @SLV.Simplex.intoOpinion := by
+  funext α _ n s a
+  unfold SLV.Gen.Mul.Simplex1d_into_opinion
+  rw [gen_multi_check_base_rate_eq]
+  rfl
+
+/-! ### src/mul/labeled.rs -/
+
+/- labelled `Product2` (`OpinionD2`): `product2_iter(&x, &y)` yields the entries of `outer2 x y` in row-major
+    order, `izip!` / `zip` pair entries of equal flat index; `Opinion::normalized` renormalises the base rate. -/
+theorem gen_product2_labeled_eq : @SLV.Gen.Mul.product2_labeled = @SLV.product2L := by
+  funext α _ n0 n1 w0 w1
+  unfold SLV.Gen.Mul.product2_labeled SLV.product2L SLV.product2Raw
+  rw [gen_OpinionRef_projection_eq, gen_Opinion_normalized_eq]
+  rfl
+
+theorem gen_product3_labeled_eq : @SLV.Gen.Mul.product3_labeled = @SLV.product3L := by
+  funext α _ n0 n1 n2 w0 w1 w2
+  unfold SLV.Gen.Mul.product3_labeled SLV.product3L SLV.product3Raw
+  rw [gen_OpinionRef_projection_eq, gen_Opinion_normalized_eq]
+  rfl
+
+/-! ### `MergeJointConditions2::merge_cond2` (src/mul.rs), instantiated for the two product families -/
+
+/- collecting a container of `ok` cells -/
+theorem sequenceE_ofFn_ok {ε β : Type} {k : Nat} (g : Fin k → β) :
+    sequenceE (Vector.ofFn fun y => (Except.ok (g y) : Except ε β)) = .ok (Vector.ofFn g) := by
+  unfold sequenceE
+  have h1 : (Vector.ofFn fun y => (Except.ok (g y) : Except ε β)) = (Vector.ofFn g).map (fun x => pure x) := by
+    apply Vector.ext; intro i h; simp [pure, Except.pure]
+  have h2 : (id ∘ fun x : β => (pure x : Except ε β)) = fun x => pure (id x) := rfl
+  rw [h1, Vector.mapM_map, h2, Vector.mapM_pure]
+  simp [pure, Except.pure]
+
+/- unlabelled family: `Product2::product2` on opinions validates (`Opinion::new`), a panic inside the `from_fn`
+   closure is the first error in index order (`sequenceE`); `Product2::product2(ax1, ax2)` on tables is `outer2`. -/
+theorem gen_merge_cond2_unlabeled_eq :
+    @SLV.Gen.Mul.merge_cond2_unlabeled = fun (α : Type) (_ : Scalar α) (m n1 n2 : Nat) (yx1 : CondTab α n1 m)
+      (yx2 : CondTab α n2 m) (ax1 : Tab α n1) (ax2 : Tab α n2) (ay : Tab α m) =>
+      SLV.mergeCond2 true yx1 yx2 ax1 ax2 ay := by
+  funext α _ m n1 n2 yx1 yx2 ax1 ax2 ay
+  unfold SLV.Gen.Mul.merge_cond2_unlabeled SLV.mergeCond2
+  rw [gen_mbr_eq, gen_inverse_eq, gen_product2_eq]
+  simp only [if_true]
+  generalize SLV.mbr ax1 yx1 = o1
+  generalize SLV.mbr ax2 yx2 = o2
+  cases o1 <;> cases o2 <;> dsimp only [Option.getD] <;> generalize sequenceE _ = r <;> cases r <;> rfl
+
+/- labelled family: `Product2::product2` on opinions is the normalising product, nothing can panic -/
+theorem gen_merge_cond2_labeled_eq :
+    (fun (α : Type) (_ : Scalar α) (m n1 n2 : Nat) (yx1 : CondTab α n1 m) (yx2 : CondTab α n2 m) (ax1 : Tab α n1)
+      (ax2 : Tab α n2) (ay : Tab α m) =>
+      (Except.ok (SLV.Gen.Mul.merge_cond2_labeled yx1 yx2 ax1 ax2 ay) : Except Label (CondTab α (n1 * n2) m))) =
+    fun (α : Type) (_ : Scalar α) (m n1 n2 : Nat) (yx1 : CondTab α n1 m) (yx2 : CondTab α n2 m) (ax1 : Tab α n1)
+      (ax2 : Tab α n2) (ay : Tab α m) => SLV.mergeCond2 false yx1 yx2 ax1 ax2 ay := by
+  funext α _ m n1 n2 yx1 yx2 ax1 ax2 ay
+  unfold SLV.Gen.Mul.merge_cond2_labeled SLV.mergeCond2
+  rw [gen_mbr_eq, gen_inverse_eq, gen_product2_labeled_eq]
+  simp only [Bool.false_eq_true, if_false, sequenceE_ofFn_ok]
+  generalize SLV.mbr ax1 yx1 = o1
+  generalize SLV.mbr ax2 yx2 = o2
+  cases o1 <;> cases o2 <;> rfl
 
 end SLV.Gen.Tie
